@@ -75,7 +75,13 @@ MaxLens == {0, 1, 3}                                  \* max_len=, 0: option abs
    written in Python). *)
 Decl(k, ty, nl, mn, mx, sz, us, ml, ck, st) ==
     [kind |-> k, type |-> ty, nullable |-> nl, min |-> mn, max |-> mx, size |-> sz, unsigned |-> us,
-     maxlen |-> ml, check |-> ck, strip |-> st]
+     maxlen |-> ml, check |-> ck, strip |-> st, supplied |-> "absent"]
+
+(* options that make the database supply the value when the program gives none: sql_default=<literal>,
+   volatile=True, auto=True.  They exempt a Required/PrimaryKey attribute from giving a value (None is then
+   accepted at every entry point); they do NOT make the empty string a value. *)
+Supplies == {"sql_default", "volatile", "auto"}
+WithSupplied(d, sp) == [d EXCEPT !.supplied = sp]
 
 (* options Pony defines per attribute type (nullable and py_check exist for every type) *)
 Applicable(ty) == CASE ty = "int"             -> {"min", "max", "size", "unsigned"}
@@ -98,6 +104,7 @@ Uint64Support == FALSE
 DefRejected(d) ==
     \/ ~(Opts(d) \subseteq Applicable(d.type))                          \* option of another type
     \/ d.kind = "PrimaryKey" /\ d.type = "float"
+    \/ d.kind = "PrimaryKey" /\ d.supplied = "volatile"                  \* a key cannot change behind the session's back
     \/ d.kind = "Optional" /\ d.type # "str" /\ d.nullable = "false"     \* no empty value to stand for "absent"
     \/ d.type = "int" /\ Opts(d) \subseteq Applicable("int") /\
           \/ d.min.has /\ NumLt(SmallInt(d.min.v), Lowest(d))            \* bound outside the range of size/unsigned
@@ -145,7 +152,8 @@ Check(n) == CASE n.t = "int"   -> n # SmallInt(1)
 
 (* None stands for "no value": allowed for optional attributes that are nullable.  Optional attributes of
    a non-string type are always nullable; optional strings use '' for "absent" unless nullable=True. *)
-NullOK(d) == d.kind = "Optional" /\ (d.type # "str" \/ d.nullable = "true")
+NullOK(d) == \/ d.kind = "Optional" /\ (d.type # "str" \/ d.nullable = "true")
+             \/ d.kind # "Optional" /\ d.supplied # "absent"     \* the database supplies the value
 
 Violated(d, v) ==
     IF v.t = "none" THEN (IF NullOK(d) THEN {} ELSE IF d.kind = "Optional" THEN {"nullable"} ELSE {"required"})
@@ -162,7 +170,7 @@ Accepts(d, v) == Violated(d, v) = {}
 
 (* the same declaration without value constraints: used for the law Monotone and to tell which cases are
    decided by a declared option *)
-Plain(d) == Decl(d.kind, d.type, d.nullable, NoB, NoB, 64, FALSE, 0, FALSE, d.strip)
+Plain(d) == WithSupplied(Decl(d.kind, d.type, d.nullable, NoB, NoB, 64, FALSE, 0, FALSE, d.strip), d.supplied)
 PlainAccepts(d, v) == IF d.type = "int" THEN Violated(Plain(d), v) \subseteq {"size"} ELSE Accepts(Plain(d), v)
 
 ---------------------------------------------------------------------------
@@ -192,7 +200,13 @@ Misapplied == { Decl("Required", "str", "absent", Bd(0), NoB, 0, FALSE, 0, FALSE
                 Decl("Optional", "bool", "absent", NoB, NoB, 0, FALSE, 1, FALSE, "absent"),
                 Decl("Required", "bool", "absent", NoB, NoB, 0, TRUE, 0, FALSE, "absent") }
 
-AllDecls == IntDecls \cup FloatDecls \cup DecDecls \cup StrDecls \cup BoolDecls \cup Misapplied
+(* declarations whose value is supplied by the database: every string declaration, and for the other types
+   every kind/nullable/py_check combination without value options *)
+NoValueOpts(d) == ~d.min.has /\ ~d.max.has /\ d.size = 0 /\ ~d.unsigned
+SuppliedDecls == { WithSupplied(d, sp) : d \in StrDecls \cup { x \in IntDecls \cup FloatDecls \cup DecDecls \cup BoolDecls : NoValueOpts(x) },
+                                        sp \in Supplies }
+
+AllDecls == IntDecls \cup FloatDecls \cup DecDecls \cup StrDecls \cup BoolDecls \cup Misapplied \cup SuppliedDecls
 
 (* quick tier: every combination of the value options with the plain kind, and every kind/nullable/py_check
    combination with a reduced set of value options *)
@@ -200,7 +214,8 @@ PlainKind(d) == d.kind = "Required" /\ d.nullable = "absent" /\ ~d.check
 QuickDecls ==
     { d \in IntDecls : PlainKind(d) \/ (d.size \in {0, 8} /\ d.min \in {NoB, Bd(0)} /\ d.max \in {NoB, Bd(2)}) } \cup
     { d \in FloatDecls \cup DecDecls : PlainKind(d) \/ (d.min \in {NoB, Bd(0)} /\ d.max \in {NoB, Bd(0)}) } \cup
-    StrDecls \cup BoolDecls \cup Misapplied
+    StrDecls \cup BoolDecls \cup Misapplied \cup
+    { d \in SuppliedDecls : (d.type = "str" /\ d.maxlen = 0) \/ (d.nullable = "absent" /\ ~d.check) }
 
 DeclsOf(tier) == IF tier = "quick" THEN QuickDecls ELSE AllDecls
 
